@@ -17,4 +17,6 @@ INVARIANT Interval
 INVARIANT NoRetryAfterAnswer
 INVARIANT ChainAlive
 INVARIANT NoOrphans
+INVARIANT NoLockLeak
+INVARIANT ChainKept
 CHECK_DEADLOCK FALSE
